@@ -72,6 +72,41 @@ func worldFromPackages(repoDir string, fset *token.FileSet, pkgs []*packages.Pac
 			w.ModFuncs = append(w.ModFuncs, fn)
 		}
 	}
+	// generic types: AllFunctions reaches their methods only as instantiations; add the
+	// generic origin bodies (and their anonymous functions) so that rules see them
+	have := map[*ssa.Function]bool{}
+	for _, fn := range w.ModFuncs {
+		have[fn] = true
+	}
+	var addFn func(fn *ssa.Function)
+	addFn = func(fn *ssa.Function) {
+		if fn == nil || fn.Blocks == nil || have[fn] {
+			return
+		}
+		have[fn] = true
+		w.ModFuncs = append(w.ModFuncs, fn)
+		for _, a := range fn.AnonFuncs {
+			addFn(a)
+		}
+	}
+	for _, sp := range spkgs {
+		if sp == nil || !strings.HasPrefix(sp.Pkg.Path(), modulePath) {
+			continue
+		}
+		for _, m := range sp.Members {
+			t, ok := m.(*ssa.Type)
+			if !ok {
+				continue
+			}
+			nt, ok := t.Type().(*types.Named)
+			if !ok || nt.TypeParams().Len() == 0 {
+				continue
+			}
+			for i := 0; i < nt.NumMethods(); i++ {
+				addFn(prog.FuncValue(nt.Method(i)))
+			}
+		}
+	}
 	sort.Slice(w.ModFuncs, func(i, j int) bool {
 		a, b := w.ModFuncs[i], w.ModFuncs[j]
 		if a.String() != b.String() {
